@@ -574,10 +574,13 @@ class CoopLock:
                     return False
                 raise SimDeadlock()
             return self._l.acquire(True, timeout)
+        timed = timeout is not None and timeout >= 0
         while True:
-            s.block_on(self)
+            expired = s.block_on(self, timed=timed)
             if self._l.acquire(False):
                 return True
+            if expired:
+                return False
 
     def release(self):
         self._l.release()
@@ -811,6 +814,7 @@ class Sched:
         self.killed = None
         self._pos = None
         self.timed = [False] * len(thread_calls)
+        self.woke_by_timeout = [False] * len(thread_calls)
         self.timeouts_fired = 0
         self.seen_lines = set() if plan.wants_novel else None
         self.a5 = a5mod
@@ -916,29 +920,41 @@ class Sched:
         self.seg_n += 1
 
     # -- cooperative lock support ------------------------------------------
+    def _fire_timeout(self):
+        """Nothing can run: simulated time jumps to the earliest pending timed wait.
+        Returns the thread woken, or None if there is none (deadlock)."""
+        tw = [i for i in range(self.n) if self.state[i] == 'blocked' and self.timed[i]]
+        if not tw:
+            return None
+        w = tw[0]
+        self.state[w] = 'ready'
+        obj, self.blocked_on[w] = self.blocked_on[w], None
+        if hasattr(obj, 'timed_out'):
+            obj.timed_out = True
+        self.woke_by_timeout[w] = True
+        self.timeouts_fired += 1
+        return w
+
     def block_on(self, lock, timed=False):
+        """Park the baton holder until `lock` is released/notified.  Returns True
+        if it was woken because its (simulated) timeout elapsed."""
         t = self.cur
         self.state[t] = 'blocked'
         self.blocked_on[t] = lock
         self.timed[t] = timed
+        self.woke_by_timeout[t] = False
         r = self.runnable()
         if not r:
-            # nothing can run: simulated time jumps to the earliest pending timeout, if any
-            tw = [i for i in range(self.n) if self.state[i] == 'blocked' and self.timed[i]]
-            if not tw:
+            w = self._fire_timeout()
+            if w is None:
                 self._abort('deadlock')
-            w = tw[0]
-            self.state[w] = 'ready'
-            obj, self.blocked_on[w] = self.blocked_on[w], None
-            if hasattr(obj, 'timed_out'):
-                obj.timed_out = True
-            self.timeouts_fired += 1
             if w == t:
-                return
+                return True
             r = [w]
         target = self.plan.handoff(r)
         self._transfer(t, target, 'lock')
         self.locks[t].acquire()
+        return self.woke_by_timeout[t]
 
     def unblock(self, lock):
         for i in range(self.n):
@@ -970,15 +986,9 @@ class Sched:
         r = self.runnable()
         if not r:
             if any(s == 'blocked' for s in self.state):
-                tw = [i for i in range(self.n) if self.state[i] == 'blocked' and self.timed[i]]
-                if not tw:
+                w = self._fire_timeout()
+                if w is None:
                     self._abort('deadlock')
-                w = tw[0]
-                self.state[w] = 'ready'
-                obj, self.blocked_on[w] = self.blocked_on[w], None
-                if hasattr(obj, 'timed_out'):
-                    obj.timed_out = True
-                self.timeouts_fired += 1
                 r = [w]
             else:
                 self.active = False
